@@ -185,13 +185,14 @@ func (s *simStore) GetMany(ctx context.Context, keys ...string) ([]*kvs.Record, 
 }
 
 func (s *simStore) Put(ctx context.Context, r kvs.Record) (kvs.Record, error) {
+	openAtInvoke := s.w.openTenures()
 	exec, lost := s.gate("put", false)
 	if !exec {
 		return kvs.Record{}, errInjected
 	}
 	rr, err := s.base.Put(ctx, r)
 	if err == nil && r.Key == lockKey {
-		s.w.onForeignWrite("Put", zsimrt.CurrentName())
+		s.w.onForeignWrite("Put", zsimrt.CurrentName(), openAtInvoke)
 	}
 	zsimrt.Yield("st:resp:put")
 	if lost {
@@ -205,7 +206,8 @@ func (s *simStore) PutMany(ctx context.Context, rs []kvs.Record) error {
 }
 
 func (s *simStore) CasByVersion(ctx context.Context, r kvs.Record) (kvs.Record, error) {
-	s.w.onRenewAttempt(r.Version)
+	unlockedAtInvoke := s.w.onRenewAttempt(r.Version)
+	openAtInvoke := s.w.openTenures()
 	exec, lost := s.gate("cas", true)
 	if !exec {
 		return kvs.Record{}, errInjected
@@ -213,9 +215,9 @@ func (s *simStore) CasByVersion(ctx context.Context, r kvs.Record) (kvs.Record, 
 	rr, err := s.base.CasByVersion(ctx, r)
 	s.w.e.Logf("st n%d cas -> %s", s.node, errStr(err))
 	if r.Key == lockKey {
-		s.w.onCas(r, rr, err)
+		s.w.onCas(r, rr, err, unlockedAtInvoke)
 		if err == nil {
-			s.w.onForeignWrite("CasByVersion", zsimrt.CurrentName())
+			s.w.onForeignWrite("CasByVersion", zsimrt.CurrentName(), openAtInvoke)
 		}
 	}
 	zsimrt.Yield("st:resp:cas")
@@ -299,29 +301,38 @@ func (w *world) onCreate(who, ver string, r kvs.Record, replyLost bool) {
 
 // onForeignWrite: a successful write of the lock record that is not an
 // acquisition (Create by a task).
-func (w *world) onForeignWrite(kind, who string) {
-	if w.prop() != "C05" {
-		return
-	}
-	if _, isTask := w.byName[who]; isTask {
-		return
-	}
+func (w *world) openTenures() int {
 	open := 0
 	for _, t := range w.tenures {
 		if !t.unlocked && w.curTen[t.task] == t {
 			open++
 		}
 	}
-	if open == 0 {
-		w.e.Violate("C05", "write_after_unlock", "a %s of the lock record by %s succeeded while no tenure is open (every holder's Unlock has returned): renewal of a finished tenure changed the storage", kind, who)
+	return open
+}
+
+// onForeignWrite: a successful write of the lock record that is not an
+// acquisition. It is judged by the moment the call was issued: a call that
+// was already in flight when the last Unlock returned may legitimately have
+// taken effect before the Delete.
+func (w *world) onForeignWrite(kind, who string, openAtInvoke int) {
+	if w.prop() != "C05" {
+		return
+	}
+	if _, isTask := w.byName[who]; isTask {
+		return
+	}
+	if openAtInvoke == 0 {
+		w.e.Violate("C05", "write_after_unlock", "a %s of the lock record issued by %s while no tenure was open (every holder's Unlock had returned) succeeded: renewal of a finished tenure changed the storage", kind, who)
 	}
 }
 
-func (w *world) onRenewAttempt(ver string) {
+func (w *world) onRenewAttempt(ver string) (unlockedAtInvoke bool) {
 	t := w.byVer[ver]
 	if t == nil {
-		return
+		return false
 	}
+	unlockedAtInvoke = t.unlocked
 	if t.unlocked {
 		t.afterUnlockCalls++
 		t.lastRenewAfterUnlock = time.Now()
@@ -330,16 +341,17 @@ func (w *world) onRenewAttempt(ver string) {
 			w.e.Violate("C05", "renewal_after_unlock_repeats", "tenure #%d of %s: %d renewal calls reached the storage after Unlock returned (at most one armed attempt is allowed)", t.id, t.task, t.afterUnlockCalls)
 		}
 	}
+	return
 }
 
-func (w *world) onCas(req kvs.Record, res kvs.Record, err error) {
+func (w *world) onCas(req kvs.Record, res kvs.Record, err error, unlockedAtInvoke bool) {
 	t := w.byVer[req.Version]
 	if t == nil {
 		return
 	}
 	if err == nil {
-		if t.unlocked && w.prop() == "C05" {
-			w.e.Violate("C05", "renewal_after_unlock_succeeded", "a renewal of tenure #%d of %s succeeded after its Unlock had returned: it changed the record", t.id, t.task)
+		if unlockedAtInvoke && w.prop() == "C05" {
+			w.e.Violate("C05", "renewal_after_unlock_succeeded", "a renewal of tenure #%d of %s issued after its Unlock had returned succeeded: it changed the record", t.id, t.task)
 		}
 		t.version = res.Version
 		if req.ExpiresAt != nil {
